@@ -191,10 +191,21 @@ def _ind_case(rng, size, spec, programs=False, mgr=True):
             k = rng.random()
             if k < 0.25:
                 lines.append("ipurge")
+                if rng.random() < 0.5:
+                    # a burst without an append in between: readings reappear in the MIDDLE of the list, so the following
+                    # calculate() starts from 0 and must skip them (the `is not None: continue` test of the loop)
+                    lines.append("isnap")
+                    lines.append(f"icidx s={rng.randint(-3, 6)} e=-")
+                    lines.append("isnap")
+                    lines.append("icalc")
             elif k < 0.5:
                 lines.append("irecalc")
             elif k < 0.75:
-                lines.append(f"icidx s={rng.randint(-3, 6)} e=-")
+                s_ = rng.randint(-3, 6)
+                # explicit end index: within the documented use (an end below -len is re-normalised a second time by the
+                # sub-indicators of the real code, which the model - indices normalised once - does not follow: outside the domain)
+                e_ = "-" if rng.random() < 0.6 else str(rng.choice([s_ + 1, s_ + 2, s_ + 3] if s_ >= 0 else [-1]))
+                lines.append(f"icidx s={s_} e={e_}")
             else:
                 lines.append("icalc")
             lines.append("isnap")
